@@ -267,11 +267,18 @@ func writeInnerType(w *formatting.IndentedWriter, recordDef *dsl.RecordDefinitio
 
 func needsInnerType(node dsl.Node) bool {
 	result := false
+	visitedDefinitions := make(map[dsl.TypeDefinition]bool)
 	dsl.Visit(node, func(self dsl.Visitor, node dsl.Node) {
 		switch t := node.(type) {
 		case *dsl.SimpleType:
-			self.Visit(t.ResolvedDefinition)
-			self.VisitChildren(node)
+			// visit every referenced definition once, not once per path that leads to it
+			if !visitedDefinitions[t.ResolvedDefinition] {
+				visitedDefinitions[t.ResolvedDefinition] = true
+				self.Visit(t.ResolvedDefinition)
+			}
+			if len(t.ResolvedDefinition.GetDefinitionMeta().TypeArguments) == 0 {
+				self.VisitChildren(node)
+			}
 		case *dsl.GeneralizedType:
 			if len(t.Cases) > 1 {
 				result = true
@@ -307,11 +314,18 @@ func needsInnerType(node dsl.Node) bool {
 
 func containsVlen(node dsl.Node) bool {
 	result := false
+	visitedDefinitions := make(map[dsl.TypeDefinition]bool)
 	dsl.Visit(node, func(self dsl.Visitor, node dsl.Node) {
 		switch t := node.(type) {
 		case *dsl.SimpleType:
-			self.Visit(t.ResolvedDefinition)
-			self.VisitChildren(node)
+			// visit every referenced definition once, not once per path that leads to it
+			if !visitedDefinitions[t.ResolvedDefinition] {
+				visitedDefinitions[t.ResolvedDefinition] = true
+				self.Visit(t.ResolvedDefinition)
+			}
+			if len(t.ResolvedDefinition.GetDefinitionMeta().TypeArguments) == 0 {
+				self.VisitChildren(node)
+			}
 		case *dsl.GeneralizedType:
 			switch d := t.Dimensionality.(type) {
 			case *dsl.Vector:
